@@ -89,6 +89,75 @@ def m_result_map(it, st, args, info):
             outs.append((s2, OK(r)))
     return outs
 
+def mk_unwrap_or(okv, badv, mode):
+    # mode: 'value' (unwrap_or), 'else' (unwrap_or_else: closure; Result passes the error), 'default'
+    def m(it, st, args, info):
+        x = strip_named(it.deref(st, args[0]))
+        outs = []
+        for s, v in it.fork_variants(st, x, [okv, badv], info['site']):
+            if v == okv: outs.append((s, variant_payload(x, okv))); continue
+            if mode == 'value': outs.append((s, args[1]))
+            elif mode == 'default': outs.append((s, ('call', 'std::default::Default::default', (info.get('dest_ty') or '',), ())))
+            else:
+                cargs = [] if okv == 'Some' else [variant_payload(x, badv)]
+                outs.extend(it.apply_callable(s, args[1], cargs, info['site']))
+        return outs
+    return m
+
+def mk_and_then(okv, badv):
+    def m(it, st, args, info):
+        x = strip_named(it.deref(st, args[0]))
+        outs = []
+        for s, v in it.fork_variants(st, x, [okv, badv], info['site']):
+            if v == okv: outs.extend(it.apply_callable(s, args[1], [variant_payload(x, okv)], info['site']))
+            elif okv == 'Some': outs.append((s, NONE))
+            else: outs.append((s, ERR(variant_payload(x, 'Err'))))
+        return outs
+    return m
+
+def mk_or_else(okv, badv):
+    def m(it, st, args, info):
+        x = strip_named(it.deref(st, args[0]))
+        outs = []
+        for s, v in it.fork_variants(st, x, [okv, badv], info['site']):
+            if v == okv: outs.append((s, SOME(variant_payload(x, okv)) if okv == 'Some' else OK(variant_payload(x, okv))))
+            else: outs.extend(it.apply_callable(s, args[1], [] if okv == 'Some' else [variant_payload(x, badv)], info['site']))
+        return outs
+    return m
+
+def mk_map_or(okv, badv, lazy):
+    def m(it, st, args, info):
+        x = strip_named(it.deref(st, args[0]))
+        outs = []
+        for s, v in it.fork_variants(st, x, [okv, badv], info['site']):
+            if v == okv: outs.extend(it.apply_callable(s, args[2], [variant_payload(x, okv)], info['site']))
+            elif lazy: outs.extend(it.apply_callable(s, args[1], [] if okv == 'Some' else [variant_payload(x, badv)], info['site']))
+            else: outs.append((s, args[1]))
+        return outs
+    return m
+
+def mk_is_and(okv, badv):
+    def m(it, st, args, info):
+        x = strip_named(it.deref(st, args[0]))
+        outs = []
+        for s, v in it.fork_variants(st, x, [okv, badv], info['site']):
+            if v == okv: outs.extend(it.apply_callable(s, args[1], [variant_payload(x, okv)], info['site']))
+            else: outs.append((s, FALSE))
+        return outs
+    return m
+
+def m_ok_or_else_apply(it, st, args, info):
+    x = strip_named(it.deref(st, args[0]))
+    outs = []
+    for s, v in it.fork_variants(st, x, ['Some', 'None'], info['site']):
+        if v == 'Some': outs.append((s, OK(variant_payload(x, 'Some'))))
+        else:
+            for s2, r in it.apply_callable(s, args[1], [], info['site']): outs.append((s2, ERR(r)))
+    return outs
+
+def m_as_ref(it, st, args, info):
+    return it.deref(st, args[0])
+
 def mk_unwrap(okv, badv):
     def m(it, st, args, info):
         x = strip_named(it.deref(st, args[0]))
@@ -388,11 +457,30 @@ EXACT = {
     'std::ops::Try::branch': m_try_branch,
     'std::ops::FromResidual::from_residual': m_from_residual,
     'std::option::Option::<T>::ok_or': m_ok_or,
-    'std::option::Option::<T>::ok_or_else': m_ok_or_else,
+    'std::option::Option::<T>::ok_or_else': m_ok_or_else_apply,
     'std::result::Result::<T, E>::map_err': m_map_err,
     'std::result::Result::<T, E>::ok': m_result_ok,
     'std::result::Result::<T, E>::map': m_result_map,
     'std::option::Option::<T>::map': m_option_map,
+    'std::option::Option::<T>::unwrap_or': mk_unwrap_or('Some', 'None', 'value'),
+    'std::option::Option::<T>::unwrap_or_else': mk_unwrap_or('Some', 'None', 'else'),
+    'std::option::Option::<T>::unwrap_or_default': mk_unwrap_or('Some', 'None', 'default'),
+    'std::result::Result::<T, E>::unwrap_or': mk_unwrap_or('Ok', 'Err', 'value'),
+    'std::result::Result::<T, E>::unwrap_or_else': mk_unwrap_or('Ok', 'Err', 'else'),
+    'std::result::Result::<T, E>::unwrap_or_default': mk_unwrap_or('Ok', 'Err', 'default'),
+    'std::option::Option::<T>::and_then': mk_and_then('Some', 'None'),
+    'std::result::Result::<T, E>::and_then': mk_and_then('Ok', 'Err'),
+    'std::option::Option::<T>::or_else': mk_or_else('Some', 'None'),
+    'std::result::Result::<T, E>::or_else': mk_or_else('Ok', 'Err'),
+    'std::option::Option::<T>::map_or': mk_map_or('Some', 'None', False),
+    'std::option::Option::<T>::map_or_else': mk_map_or('Some', 'None', True),
+    'std::result::Result::<T, E>::map_or': mk_map_or('Ok', 'Err', False),
+    'std::result::Result::<T, E>::map_or_else': mk_map_or('Ok', 'Err', True),
+    'std::option::Option::<T>::is_some_and': mk_is_and('Some', 'None'),
+    'std::result::Result::<T, E>::is_ok_and': mk_is_and('Ok', 'Err'),
+    'std::option::Option::<T>::as_ref': m_as_ref, 'std::option::Option::<T>::as_mut': m_as_ref,
+    'std::option::Option::<&T>::cloned': m_as_ref, 'std::option::Option::<&T>::copied': m_as_ref,
+    'std::result::Result::<T, E>::as_ref': m_as_ref,
     'std::option::Option::<T>::unwrap': mk_unwrap('Some', 'None'),
     'std::option::Option::<T>::expect': mk_unwrap('Some', 'None'),
     'std::result::Result::<T, E>::unwrap': mk_unwrap('Ok', 'Err'),
